@@ -21,16 +21,13 @@ VARIABLE l
 (* CIGAR walk: M/=/X consume both, I/S the query, D/N the reference, H/P nothing *)
 Expand(cigar) == FoldLeft(LAMBDA acc, c : acc \o [ i \in 1 .. c[2] |-> c[1] ], <<>>, cigar)
 Walk(r) ==
-    LET ops == Expand(r.cigar)
-        F[k \in 0 .. Len(ops)] ==
-            IF k = 0 THEN [ q |-> 0, p |-> r.start, al |-> <<>> ]
-            ELSE LET s == F[k - 1] op == ops[k] IN
+    FoldLeft(LAMBDA s, op :
                  IF op \in {0, 7, 8} THEN [ q |-> s.q + 1, p |-> s.p + 1,
                                             al |-> Append(s.al, [ p |-> s.p, b |-> r.seq[s.q + 1], q |-> r.qual[s.q + 1] ]) ]
                  ELSE IF op \in {1, 4} THEN [ s EXCEPT !.q = @ + 1 ]
                  ELSE IF op \in {2, 3} THEN [ s EXCEPT !.p = @ + 1 ]
-                 ELSE s
-    IN F[Len(ops)]
+                 ELSE s,
+             [ q |-> 0, p |-> r.start, al |-> <<>> ], Expand(r.cigar))
 AbsRead(r) == LET w == Walk(r) IN [ mate |-> r.mate, rev |-> r.rev, start |-> r.start, end |-> w.p, al |-> w.al ]
 AbsFrags(e) == [ i \in DOMAIN e.frags |-> [ reads |-> [ k \in DOMAIN e.frags[i].reads |-> AbsRead(e.frags[i].reads[k]) ] ] ]
 ReadsOf(e) == FoldLeft(LAMBDA acc, f : acc \o f.reads, <<>>, e.frags)
@@ -64,11 +61,13 @@ Observe(line, e) ==
              xmdiff == \E i \in DOMAIN rs : Len(rs[i].xm) = Len(rs[i].al) /\
                           \E k \in DOMAIN rs[i].xm : rs[i].xm[k] # (IF rs[i].al[k].p \in DOMAIN cl THEN cl[rs[i].al[k].p] ELSE ".")
              strandfield == e.strand # (IF T!MolRev(fr) THEN 1 ELSE 0)
+             consfield == \E i \in DOMAIN e.calls : e.calls[i].cons # T!ConsAt(fr, e.calls[i].p)
          IN /\ (IF missing # {} THEN Note(line, e.tid, "divergence_missing_call") ELSE TRUE)
             /\ (IF trunc # {} THEN Note(line, e.tid, "truncated_or_nonACGT_context") ELSE TRUE)
             /\ (IF cgend # {} THEN Note(line, e.tid, "CpG_with_incomplete_third_base_not_called") ELSE TRUE)
             /\ (IF xmdiff THEN Note(line, e.tid, "divergence_xm_differs_from_molecule_calls") ELSE TRUE)
             /\ (IF strandfield THEN Note(line, e.tid, "divergence_molecule_strand_field") ELSE TRUE)
+            /\ (IF consfield THEN Note(line, e.tid, "divergence_consensus_field_of_call_differs_from_plurality") ELSE TRUE)
 
 TInit == l = 1
 TNext == l <= Len(Log) /\ Judge(l, Verdict(Log[l])) /\ Observe(l, Log[l]) /\ l' = l + 1
